@@ -77,10 +77,9 @@ def Tree.paintRoot : Tree → Tree
 /-- remove the in-order last node; its left subtree (painted black) takes its place -/
 def Tree.popMax : Tree → Option (Tree × Entry × Tree)
   | .leaf => none
-  | .node l e k .leaf => some (l.paintRoot, e, k)
-  | .node l e k r@(.node _ _ _ _) =>
+  | .node l e k r =>
     match r.popMax with
-    | none => none
+    | none => some (l.paintRoot, e, k)
     | some (r', p, pk) => some (.node l e k r', p, pk)
 
 /-- the node at the root of `t` is taken out (`remove_dir_entry` after the descent) -/
